@@ -13,6 +13,8 @@ deriving Repr, DecidableEq
 
 abbrev GoM := Except Fault
 
+deriving instance DecidableEq for Except
+
 /-- `b[i]` -/
 def idx? (site : String) (b : Bytes) (i : Nat) : GoM UInt8 :=
   match b[i]? with
